@@ -7,13 +7,144 @@ from harness import screens as S
 common.use_repo_sources()
 
 import itertools
+import os
+import random
+import shutil
+import tempfile
 
 RULE = ("random raw screens (arity 1-3, 0..n_max rows, colliding/empty/non-ASCII/astral names, doses incl. 0, -0.0, negative, "
         "subnormal, repeated), with/without a mapping batchie produced for a superset; malformed stream: mixed plate masks, "
         "non-dense / non-covering mappings; directed stream: every screen gets a zero-dose non-control cell, a -0.0 cell, a control-name cell "
         "with positive dose, a name that is a proper prefix/extension of the control name, a duplicated row and the same (name, dose) in two "
         "columns; exhaustive stream: all arity-1 screens over {ctrl, 'a', 'ab'} x {0.0, -0.0, 1.0, 2.0} with <= 2 (quick) / 3 (thorough) rows. "
-        "Non-trivial: >=2 rows, >=1 control cell and >=2 distinct non-control treatments.")
+        "Every screen is built from arrays in a random memory layout / dtype (C, Fortran, strided, negative strides, wider <U, read-only, zero-stride "
+        "broadcast plate names; the inputs must be left unchanged), supplied mappings include ones built for data in which whole drug / sample names "
+        "(longer than every name of the screen) are absent from the screen; ExperimentSpace.from_screen / save_h5 / load_h5 must carry the mapping "
+        "verbatim (names, dose bit patterns, ids) and its sizes are tied to the model (`espace`). Outside the quantifier, observed only: object-dtype names, "
+        "supplied mappings with duplicate keys. Non-trivial: >=2 rows, >=1 control cell and >=2 distinct non-control treatments.")
+
+VARIANTS = ["c", "c", "f", "strided", "neg", "wide", "readonly", "mixed", "mixed"]
+ABSENT_NAMES = ["A_absent_drug_with_a_long_name", "m-absent-drug", "zzzz_absent", "\U0001F600absent", "", "control", "dmso", "ctl"]
+
+
+# ---------------------------------------------------------------- memory layouts / dtypes of the constructor's inputs
+
+def _layout(a, how, rng):
+    """the same values in another memory layout / dtype"""
+    a = np.array(a)          # private copy
+    if how == "f":
+        return np.asfortranarray(a)
+    if how == "strided":
+        big = np.empty(tuple(2 * k + 1 for k in a.shape), dtype=a.dtype)
+        big[...] = a.dtype.type("#") if a.dtype.kind == "U" else (True if a.dtype.kind == "b" else 7)
+        sl = tuple(slice(1, None, 2) for _ in a.shape)
+        big[sl] = a
+        return big[sl]
+    if how == "neg":
+        sl = tuple(slice(None, None, -1) for _ in a.shape)
+        return np.ascontiguousarray(a[sl])[sl]
+    if how == "wide" and a.dtype.kind == "U":
+        return a.astype("<U%d" % (a.dtype.itemsize // 4 + rng.randint(1, 9)))
+    if how == "readonly":
+        a.setflags(write=False)
+        return a
+    return a
+
+
+def _sig(a):
+    """value signature of an input array (floats by bit pattern, so that -0.0 -> 0.0 is a change)"""
+    a = np.asarray(a)
+    if a.dtype.kind == "f":
+        return [S.bits(x) for x in a.ravel()]
+    return [x for x in a.ravel().tolist()]
+
+
+def build_variant(raw, variant, vseed):
+    """Screen(...) from `raw` with the arrays in the given layout; returns (screen, inputs, signatures before the call)"""
+    from batchie.data import Screen
+    rng = random.Random(vseed)
+    n, a = len(raw["snames"]), raw["arity"]
+    arrs = dict(
+        treatment_names=np.array(raw["tnames"], dtype=str).reshape(n, a),
+        treatment_doses=np.array(raw["tdoses"], dtype=float).reshape(n, a),
+        sample_names=np.array(raw["snames"], dtype=str),
+        plate_names=np.array(raw["pnames"], dtype=str),
+    )
+    if raw["obs"] is not None:
+        arrs["observations"] = np.array(raw["obs"], dtype=float)
+    if raw["mask"] is not None:
+        arrs["observation_mask"] = np.array(raw["mask"], dtype=bool)
+    if raw.get("tmap") is not None:
+        arrs["tm0"] = np.array([str(x) for x in raw["tmap"][0]], dtype=str)
+        arrs["tm1"] = np.array([float(x) for x in raw["tmap"][1]], dtype=float)
+        arrs["tm2"] = np.array([int(x) for x in raw["tmap"][2]], dtype=int)
+    if raw.get("smap") is not None:
+        arrs["sm0"] = np.array([str(x) for x in raw["smap"][0]], dtype=str)
+        arrs["sm1"] = np.array([int(x) for x in raw["smap"][1]], dtype=int)
+    for k in list(arrs):
+        how = variant if variant != "mixed" else rng.choice(["c", "f", "strided", "neg", "wide", "readonly"])
+        arrs[k] = _layout(arrs[k], how, rng)
+    if variant == "mixed" and n >= 1 and len(set(raw["pnames"])) == 1 and rng.random() < 0.5:
+        arrs["plate_names"] = np.broadcast_to(np.array(raw["pnames"][0], dtype=str), (n,))      # zero strides, read-only
+    before = {k: (_sig(v), v.shape, v.dtype.str) for k, v in arrs.items()}
+    kw = {k: v for k, v in arrs.items() if k[:2] not in ("tm", "sm")}
+    kw["control_treatment_name"] = raw["ctrl"]
+    if "tm0" in arrs:
+        kw["treatment_mapping"] = (arrs["tm0"], arrs["tm1"], arrs["tm2"])
+    if "sm0" in arrs:
+        kw["sample_mapping"] = (arrs["sm0"], arrs["sm1"])
+    s = Screen(**kw)
+    return s, arrs, before
+
+
+def check_inputs_unchanged(res, case, arrs, before):
+    for k, v in arrs.items():
+        if (_sig(v), v.shape, v.dtype.str) != before[k]:
+            res.fail("Screen(...) changed one of its input arrays in place", case, {"array": k, "now": _sig(v)[:40]}, before[k][0][:40],
+                     signature="C01:input-mutated")
+            return
+
+
+def map_sig(tm):
+    return [(str(a), S.bits(b), int(c)) for a, b, c in zip(*tm)]
+
+
+def smap_sig(sm):
+    return [(str(a), int(c)) for a, c in zip(*sm)]
+
+
+def superset_with_absent_names(rng, raw):
+    """mappings batchie produces for data = the screen's rows + rows whose drug / sample names do not occur in the screen at all
+    (several doses each, some control by dose, names longer than every name of the screen)"""
+    a = raw["arity"]
+    present = set(nm for row in raw["tnames"] for nm in row)
+    absent = [x for x in ABSENT_NAMES if x not in present]
+    rng.shuffle(absent)
+    absent = absent[:rng.randint(1, 3)]
+    extra_t, extra_d = [], []
+    for nm in absent:
+        for d in rng.sample([0.0, -0.0, 1.0, 2.5, 1e-310, 10.0, -1.0], rng.randint(1, 3)):
+            row_n = [nm] + [rng.choice(absent + list(present)) for _ in range(a - 1)]
+            row_d = [d] + [rng.choice([0.0, 1.0, 3.0]) for _ in range(a - 1)]
+            rng.shuffle(row_n)
+            extra_t.append(row_n)
+            extra_d.append(row_d)
+    k = len(extra_t)
+    spresent = set(raw["snames"])
+    sabs = [x for x in ABSENT_NAMES + ["s_absent"] if x not in spresent]
+    big = dict(raw)
+    big["tnames"] = raw["tnames"] + extra_t
+    big["tdoses"] = raw["tdoses"] + extra_d
+    big["snames"] = raw["snames"] + [rng.choice(sabs) for _ in range(k)]
+    big["pnames"] = raw["pnames"] + ["zzz_extra"] * k
+    big["tmap"] = big["smap"] = None
+    if raw["obs"] is not None:
+        big["obs"] = raw["obs"] + [0.5] * k
+        big["mask"] = None if raw["mask"] is None else raw["mask"] + [True] * k
+    s = S.build(big)
+    tm = ([str(x) for x in s.treatment_mapping[0]], [float(x) for x in s.treatment_mapping[1]], [int(x) for x in s.treatment_mapping[2]])
+    sm = ([str(x) for x in s.sample_mapping[0]], [int(x) for x in s.sample_mapping[1]])
+    return tm, sm, absent
 
 
 def directed(rng, raw):
@@ -28,6 +159,10 @@ def directed(rng, raw):
     ext = ctrl + "b"
     feats = [(rng.choice(other), 0.0), (rng.choice(other), -0.0), (ctrl, rng.choice([1.0, 2.5, 5e-324])),
              (pre, rng.choice([1.0, 0.0])), (ext, 1.0), (rng.choice(other), -1.0)]
+    # names that differ from the control name only by case / surrounding blanks are NOT the control
+    for v in (ctrl.swapcase(), " " + ctrl, ctrl + " "):
+        if v != ctrl and rng.random() < 0.5:
+            feats.append((v, rng.choice([1.0, 2.5])))
     for nm, d in feats:
         r, c = rng.randrange(n), rng.randrange(a)
         raw["tnames"][r][c], raw["tdoses"][r][c] = nm, d
@@ -52,7 +187,6 @@ def exhaustive_raws(max_rows):
 
 def oracle(res, case, raw, s):
     """the property, evaluated on the implementation's screen"""
-    from batchie.data import ExperimentSpace
     tm = s.treatment_mapping
     table = {}
     for nm, d, i in zip(*tm):
@@ -61,6 +195,9 @@ def oracle(res, case, raw, s):
     n, a = len(raw["snames"]), raw["arity"]
     if tids.shape != (n, a):
         res.fail("treatment_ids has wrong shape", case, list(tids.shape), [n, a])
+        return
+    if np.asarray(s.sample_ids).shape != (n,) or np.asarray(s.plate_ids).shape != (n,):
+        res.fail("sample_ids / plate_ids have wrong shape", case, [list(np.asarray(s.sample_ids).shape), list(np.asarray(s.plate_ids).shape)], [n])
         return
     ctrl = raw["ctrl"]
     for r in range(n):
@@ -74,28 +211,44 @@ def oracle(res, case, raw, s):
             if (i == -1) != is_ctrl:
                 res.fail("control sentinel iff control name or non-positive dose", case, {"row": r, "col": c, "id": i}, {"is_control": is_ctrl})
                 return
+    # the table itself (fresh, or supplied by batchie for a superset): non-control ids dense 0..m-1, equal ids iff equal (name, dose)
+    nonctrl = sorted(set(int(i) for i in tm[2] if i != -1))
+    if nonctrl != list(range(len(nonctrl))):
+        res.fail("non-control treatment ids are not dense 0..n-1", case, nonctrl, list(range(len(nonctrl))))
+    for i, lst_ in table.items():
+        if i != -1 and len(set(lst_)) != 1:
+            res.fail("two (name, dose) share a non-control id", case, lst_, "injective")
+    keys = [(str(nm), float(d)) for nm, d in zip(tm[0], tm[1])]
+    if len(set(keys)) != len(keys):
+        res.fail("mapping lists a (name, dose) twice", case, keys, "unique keys")
+    for (nm, d), i in zip(keys, tm[2]):
+        if (int(i) == -1) != (nm == ctrl or d <= 0):
+            res.fail("mapping row: control sentinel iff control name or non-positive dose", case, [nm, d, int(i)], "iff")
+            break
+    cells = set((nm, float(d)) for rn, rd in zip(raw["tnames"], raw["tdoses"]) for nm, d in zip(rn, rd))
+    sm = s.sample_mapping
     if raw.get("tmap") is None:
-        nonctrl = sorted(set(int(i) for i in tm[2] if i != -1))
-        if nonctrl != list(range(len(nonctrl))):
-            res.fail("non-control treatment ids are not dense 0..n-1", case, nonctrl, list(range(len(nonctrl))))
-        # equal ids iff equal (name, dose)
-        for i, lst_ in table.items():
-            if i != -1 and len(set(lst_)) != 1:
-                res.fail("two (name, dose) share a non-control id", case, lst_, "injective")
-        keys = [(str(nm), float(d)) for nm, d in zip(tm[0], tm[1])]
-        if len(set(keys)) != len(keys):
-            res.fail("mapping lists a (name, dose) twice", case, keys, "unique keys")
-        cells = set((nm, float(d)) for rn, rd in zip(raw["tnames"], raw["tdoses"]) for nm, d in zip(rn, rd))
         if set(keys) != cells:
             res.fail("fresh mapping keys differ from the distinct cells of the data", case, sorted(keys), sorted(cells))
-        sm = s.sample_mapping
+        # ids actually used by the cells are the whole dense range
+        used = sorted(set(int(x) for x in tids.ravel()) - {-1})
+        if used != list(range(len(nonctrl))):
+            res.fail("non-control ids used by the cells are not the dense range", case, used, list(range(len(nonctrl))))
+    else:
+        if map_sig(tm) != map_sig(raw["tmap"]):
+            res.fail("supplied mapping not followed verbatim", case, S.show_tmap(tm), S.show_tmap(raw["tmap"]), signature="C01:verbatim:treatment")
+    if raw.get("smap") is None:
         if sorted(int(i) for i in sm[1]) != list(range(len(set(raw["snames"])))):
             res.fail("sample ids not dense", case, [int(i) for i in sm[1]], len(set(raw["snames"])))
+        if sorted(set(int(i) for i in s.sample_ids)) != list(range(len(set(raw["snames"])))):
+            res.fail("sample ids used by the rows are not the dense range", case, sorted(set(int(i) for i in s.sample_ids)), len(set(raw["snames"])))
     else:
-        if S.show_tmap(tm) != S.show_tmap(raw["tmap"]) or S.show_smap(s.sample_mapping) != S.show_smap(raw["smap"]):
-            res.fail("supplied mapping not followed verbatim", case, S.show_tmap(tm), S.show_tmap(raw["tmap"]))
+        if smap_sig(sm) != smap_sig(raw["smap"]):
+            res.fail("supplied mapping not followed verbatim", case, S.show_smap(sm), S.show_smap(raw["smap"]), signature="C01:verbatim:sample")
     for kind, ids, names, mp in (("sample", s.sample_ids, raw["snames"], s.sample_mapping), ("plate", s.plate_ids, raw["pnames"], s.plate_mapping)):
         d = {str(nm): int(i) for nm, i in zip(*mp)}
+        if len(d) != len(mp[0]):
+            res.fail("%s mapping lists a name twice" % kind, case, [str(x) for x in mp[0]], "unique names")
         for r in range(n):
             if d.get(names[r]) != int(ids[r]):
                 res.fail("%s id does not decode to the row's name" % kind, case, {"row": r, "id": int(ids[r])}, names[r])
@@ -103,15 +256,82 @@ def oracle(res, case, raw, s):
         if len(set(d.values())) != len(d):
             res.fail("%s ids not injective" % kind, case, d, "injective")
     pids = sorted(set(int(i) for i in s.plate_ids))
-    if pids != list(range(len(pids))):
+    if pids != list(range(len(pids))) or len(pids) != len(set(raw["pnames"])):
         res.fail("plate ids not dense", case, pids, "0..n-1")
-    # experiment-space sizes strictly bound every id
+    if sorted(int(i) for i in s.plate_mapping[1]) != pids or set(str(x) for x in s.plate_mapping[0]) != set(raw["pnames"]):
+        res.fail("plate mapping is not the fresh table of the plate names", case, S.show_smap(s.plate_mapping), sorted(set(raw["pnames"])))
+
+
+def space_oracle(res, case, raw, s, tmpdir, roundtrip):
+    """experiment space: carries the screen's mappings verbatim (also through save_h5/load_h5), sizes strictly bound every id.
+    Returns the token the model's `espace` must reproduce."""
+    from batchie.data import ExperimentSpace
+    n = len(raw["snames"])
+    tids = np.asarray(s.treatment_ids)
     es = ExperimentSpace.from_screen(s)
-    if n:
-        if int(tids.max()) >= es.n_unique_treatments and int(tids.max()) >= 0:
-            res.fail("treatment id not bounded by experiment space", case, int(tids.max()), es.n_unique_treatments)
-        if int(np.max(s.sample_ids)) >= es.n_unique_samples:
-            res.fail("sample id not bounded by experiment space", case, int(np.max(s.sample_ids)), es.n_unique_samples)
+    spaces = [("from_screen", es)]
+    if roundtrip and len(s.treatment_mapping[0]) > 0 and len(s.sample_mapping[0]) > 0:
+        path = os.path.join(tmpdir, "es.h5")
+        try:
+            es.save_h5(path)
+            spaces.append(("save_h5/load_h5", ExperimentSpace.load_h5(path)))
+        except Exception as e:      # noqa: BLE001
+            res.fail("ExperimentSpace save_h5/load_h5 raises", case, "%s: %s" % (type(e).__name__, e), "a round trip", signature="C01:space:raises")
+    want_t = map_sig(raw["tmap"]) if raw.get("tmap") is not None else map_sig(s.treatment_mapping)
+    want_s = smap_sig(raw["smap"]) if raw.get("smap") is not None else smap_sig(s.sample_mapping)
+    for where, e in spaces:
+        if map_sig(e.treatment_mapping) != want_t:
+            res.fail("experiment space does not carry the treatment mapping verbatim", case, {"where": where, "got": S.show_tmap(e.treatment_mapping)},
+                     S.show_tmap(s.treatment_mapping), signature="C01:space:treatment-mapping")
+        if smap_sig(e.sample_mapping) != want_s:
+            res.fail("experiment space does not carry the sample mapping verbatim", case, {"where": where, "got": S.show_smap(e.sample_mapping)},
+                     S.show_smap(s.sample_mapping), signature="C01:space:sample-mapping")
+        if str(e.control_treatment_name) != raw["ctrl"]:
+            res.fail("experiment space changed the control name", case, {"where": where, "got": str(e.control_treatment_name)}, raw["ctrl"])
+        nt, ns = int(e.n_unique_treatments), int(e.n_unique_samples)
+        if n:
+            if int(tids.max()) >= nt and int(tids.max()) >= 0:
+                res.fail("treatment id not bounded by experiment space", case, {"where": where, "max id": int(tids.max())}, nt, signature="C01:space:bound:treatment")
+            if int(np.max(s.sample_ids)) >= ns:
+                res.fail("sample id not bounded by experiment space", case, {"where": where, "max id": int(np.max(s.sample_ids))}, ns, signature="C01:space:bound:sample")
+        if (nt, ns) != (int(es.n_unique_treatments), int(es.n_unique_samples)):
+            res.fail("experiment-space sizes change through save_h5/load_h5", case, [nt, ns], [int(es.n_unique_treatments), int(es.n_unique_samples)])
+    return "ok nt=%d ns=%d tss=%d sss=%d" % (int(es.n_unique_treatments), int(es.n_unique_samples), int(s.treatment_space_size), int(s.sample_space_size))
+
+
+def outside_quantifier(ctx, res, rng):
+    """observed, never failed and never sent to the model: inputs the property's quantifier excludes"""
+    from batchie.data import Screen
+    for t in range(ctx.scale(30, 300)):
+        raw = S.gen_raw(rng, n_max=8)
+        n, a = len(raw["snames"]), raw["arity"]
+        if n < 2:
+            continue
+        # (1) object-dtype names: rejected today; if ever accepted the ids must still be right
+        try:
+            s = Screen(treatment_names=np.array(raw["tnames"], dtype=object).reshape(n, a), treatment_doses=np.array(raw["tdoses"], dtype=float).reshape(n, a),
+                       sample_names=np.array(raw["snames"], dtype=str), plate_names=np.array(raw["pnames"], dtype=str), control_treatment_name=raw["ctrl"])
+            res.count("outside.object-dtype.accepted")
+            oracle(res, {"kind": "object-dtype", "raw": raw, "variant": "c", "vseed": 0}, raw, s)
+        except ValueError:
+            res.count("outside.object-dtype.ValueError")
+        except Exception:       # noqa: BLE001
+            res.count("outside.object-dtype.other-error")
+        # (2) a supplied mapping that lists a (name, dose) of the data twice (batchie never produces one): the left merge yields two
+        #     rows for such a cell, so the id arrays get more rows than the screen (or np.split raises); the model answers err:Other
+        try:
+            tm, sm = S.superset_mappings(rng, raw)
+            j = next(i for i in range(len(tm[0])) if (str(tm[0][i]), float(tm[1][i])) == (raw["tnames"][0][0], float(raw["tdoses"][0][0])))
+            dup = tuple(list(x) + [x[j]] for x in tm)
+            r2 = dict(raw, tmap=dup, smap=sm)
+            try:
+                s = S.build(r2)
+                ok_shape = np.asarray(s.treatment_ids).shape == (n, a)
+                res.count("outside.dup-key-mapping." + ("accepted-consistent" if ok_shape else "accepted-with-misshapen-ids"))
+            except Exception as e:      # noqa: BLE001
+                res.count("outside.dup-key-mapping." + type(e).__name__)
+        except Exception:       # noqa: BLE001
+            pass
 
 
 def run(ctx, res):
@@ -121,46 +341,75 @@ def run(ctx, res):
     n_cases = ctx.scale(300, 5000, 3000)
     n_max = 14 if ctx.tier == "quick" else 40
     ex = list(exhaustive_raws(2 if ctx.tier == "quick" and ctx.mode != "search" else 3))
-    for t in range(n_cases + len(ex)):
-        if t >= n_cases:
-            raw = ex[t - n_cases]
-            kind = "exhaustive"
-        else:
-            raw = S.gen_raw(rng, n_max=n_max)
-            kind = "fresh"
-            if rng.random() < 0.4:
-                raw = directed(rng, raw)
-                kind = "directed"
-        if kind != "exhaustive" and rng.random() < 0.35:
+    tmpdir = tempfile.mkdtemp(prefix="c01_")
+    try:
+        for t in range(n_cases + len(ex)):
+            if t >= n_cases:
+                raw = ex[t - n_cases]
+                kind = "exhaustive"
+            else:
+                raw = S.gen_raw(rng, n_max=n_max)
+                kind = "fresh"
+                if rng.random() < 0.4:
+                    raw = directed(rng, raw)
+                    kind = "directed"
+            absent = None
+            if kind != "exhaustive" and rng.random() < 0.4:
+                try:
+                    if rng.random() < 0.5:
+                        raw["tmap"], raw["smap"] = S.superset_mappings(rng, raw)
+                        raw["tmap"] = ([str(x) for x in raw["tmap"][0]], [float(x) for x in raw["tmap"][1]], [int(x) for x in raw["tmap"][2]])
+                        raw["smap"] = ([str(x) for x in raw["smap"][0]], [int(x) for x in raw["smap"][1]])
+                        kind = kind + "+superset-mapping"
+                    else:
+                        raw["tmap"], raw["smap"], absent = superset_with_absent_names(rng, raw)
+                        kind = kind + "+superset-absent-names"
+                except Exception:       # noqa: BLE001
+                    raw["tmap"] = raw["smap"] = None
+            variant = "c" if kind == "exhaustive" else rng.choice(VARIANTS)
+            vseed = rng.randrange(1 << 30)
+            case = {"kind": kind, "raw": raw, "variant": variant, "vseed": vseed}
+            res.evaluations += 1
+            res.count("kind." + kind)
+            res.count("layout." + variant)
+            res.count("arity.%d" % raw["arity"])
+            res.count("rows.%s" % ("0" if not raw["snames"] else "1-5" if len(raw["snames"]) <= 5 else "6+"))
             try:
-                raw["tmap"], raw["smap"] = S.superset_mappings(rng, raw)
-                kind = kind + "+superset-mapping"
-            except Exception:
-                pass
-        case = {"kind": kind, "raw": raw}
-        res.evaluations += 1
-        res.count("kind." + kind)
-        res.count("arity.%d" % raw["arity"])
-        res.count("rows.%s" % ("0" if not raw["snames"] else "1-5" if len(raw["snames"]) <= 5 else "6+"))
-        try:
-            s = S.build(raw)
-            out = S.show_screen(s)
-        except Exception as e:
-            out = S.err_tok(e)
-            s = None
-            res.fail("constructor raises on a valid screen", case, "%s: %s" % (type(e).__name__, e), "a screen")
-        if s is not None:
-            oracle(res, case, raw, s)
-            cells = [(nm, d) for rn, rd in zip(raw["tnames"], raw["tdoses"]) for nm, d in zip(rn, rd)]
-            nctl = sum(1 for nm, d in cells if nm == raw["ctrl"] or d <= 0)
-            nn = len(set((nm, d) for nm, d in cells if not (nm == raw["ctrl"] or d <= 0)))
-            if len(raw["snames"]) >= 2 and nctl >= 1 and nn >= 2:
-                res.nontrivial.add(common.short_hash(raw))
-            if rng.random() < 0.01:
-                res.sample({"kind": kind, "line": "mkscreen " + S.raw_to_tokens(raw), "impl": out[:300]})
-        lines.append("mkscreen " + S.raw_to_tokens(raw))
-        expect.append(out)
-        cases.append(case)
+                s, arrs, before = build_variant(raw, variant, vseed)
+                out = S.show_screen(s)
+            except Exception as e:      # noqa: BLE001
+                out = S.err_tok(e)
+                s = None
+                res.fail("constructor raises on a valid screen", case, "%s: %s" % (type(e).__name__, e), "a screen")
+            if s is not None:
+                check_inputs_unchanged(res, case, arrs, before)
+                oracle(res, case, raw, s)
+                if absent:
+                    stored = set(str(x) for x in s.treatment_mapping[0])
+                    if all(x in stored for x in absent):
+                        res.count("supplied-mapping.rows-of-names-absent-from-data-kept")
+                if any(S.bits(d) == S.bits(-0.0) for row in raw["tdoses"] for d in row):
+                    res.count("has-negative-zero-dose")
+                roundtrip = kind != "exhaustive" and (raw.get("tmap") is not None or rng.random() < 0.3)
+                sp = space_oracle(res, case, raw, s, tmpdir, roundtrip)
+                if roundtrip:
+                    res.count("space.save-load-roundtrip")
+                lines.append("espace " + S.raw_to_tokens(raw))
+                expect.append(sp)
+                cases.append(dict(case, kind=kind + ":espace"))
+                cells = [(nm, d) for rn, rd in zip(raw["tnames"], raw["tdoses"]) for nm, d in zip(rn, rd)]
+                nctl = sum(1 for nm, d in cells if nm == raw["ctrl"] or d <= 0)
+                nn = len(set((nm, d) for nm, d in cells if not (nm == raw["ctrl"] or d <= 0)))
+                if len(raw["snames"]) >= 2 and nctl >= 1 and nn >= 2:
+                    res.nontrivial.add(common.short_hash(raw))
+                if rng.random() < 0.01:
+                    res.sample({"kind": kind, "layout": variant, "line": "mkscreen " + S.raw_to_tokens(raw), "impl": out[:300]})
+            lines.append("mkscreen " + S.raw_to_tokens(raw))
+            expect.append(out)
+            cases.append(case)
+    finally:
+        shutil.rmtree(tmpdir, ignore_errors=True)
+    outside_quantifier(ctx, res, ctx.subrng("c01", "outside"))
     # malformed stream
     for t in range(ctx.scale(60, 600)):
         raw = S.gen_raw(rng, n_max=8)
@@ -177,6 +426,8 @@ def run(ctx, res):
                 raw["mask"] = [True] * len(raw["snames"])
             else:
                 tm, sm = S.superset_mappings(rng, raw)
+                tm = ([str(x) for x in tm[0]], [float(x) for x in tm[1]], [int(x) for x in tm[2]])
+                sm = ([str(x) for x in sm[0]], [int(x) for x in sm[1]])
                 raw["tmap"], raw["smap"] = tm, sm
                 if m == "bad-tmap-gap":
                     mx = max(tm[2])
@@ -206,26 +457,23 @@ def run(ctx, res):
                     raw["smap"] = tuple([x[i] for i in keep] for x in sm)
                 elif m == "smap-gap":
                     raw["smap"] = (sm[0], [x + 1 if x == max(sm[1]) else x for x in sm[1]])
-        except Exception:
+        except Exception:       # noqa: BLE001
             continue
-        case = {"kind": "malformed:" + m, "raw": raw}
+        variant = rng.choice(VARIANTS)
+        vseed = rng.randrange(1 << 30)
+        case = {"kind": "malformed:" + m, "raw": raw, "variant": variant, "vseed": vseed}
         res.evaluations += 1
         res.count("malformed." + m)
         try:
-            s = S.build(raw)
+            s, _arrs, _before = build_variant(raw, variant, vseed)
             out = S.show_screen(s)
             accepted = True
-        except Exception as e:
+        except Exception as e:      # noqa: BLE001
             out = S.err_tok(e)
             accepted = False
-        # oracle: which malformed inputs must be rejected (removing rows from a mapping can leave it dense and covering)
-        must_reject = m in ("mixed-mask", "mask-no-obs", "bad-tmap-gap", "smap-gap")
-        if m == "tmap-missing":
-            must_reject = True
-        if m == "smap-missing":
-            must_reject = True
-        if accepted and must_reject:
-            # a removal that leaves ids non-dense or data uncovered must be rejected
+        # every malformed input of this stream must be rejected: a mixed plate mask, a mask without observations, ids with a gap,
+        # and a mapping from which a (name, dose) / sample name of the data was removed (not covering)
+        if accepted:
             res.fail("malformed input accepted", case, out[:200], "ValueError")
         lines.append("mkscreen " + S.raw_to_tokens(raw))
         expect.append(out)
@@ -234,19 +482,25 @@ def run(ctx, res):
         got = ctx.driver.ask(lines)
         for l, e, g, c in zip(lines, expect, got, cases):
             if e != g:
-                res.disagree("C01:mkscreen:" + c["kind"], {"line": l}, e[:600], g[:600])
+                res.disagree("C01:%s:%s" % (l.split(" ")[0], c["kind"]), {"line": l}, e[:600], g[:600])
         res.traces_validated += len(lines)
 
 
 def replay(ctx, case, res):
     raw = case["raw"]
     try:
-        s = S.build(raw)
-    except Exception as e:
+        s, arrs, before = build_variant(raw, case.get("variant", "c"), case.get("vseed", 0))
+    except Exception as e:      # noqa: BLE001
         if not case["kind"].startswith("malformed"):
             res.fail("constructor raises on a valid screen", case, "%s: %s" % (type(e).__name__, e), "a screen")
         return
     if case["kind"].startswith("malformed"):
         res.fail("malformed input accepted", case, S.show_screen(s)[:200], "ValueError")
-    else:
-        oracle(res, case, raw, s)
+        return
+    check_inputs_unchanged(res, case, arrs, before)
+    oracle(res, case, raw, s)
+    tmpdir = tempfile.mkdtemp(prefix="c01_")
+    try:
+        space_oracle(res, case, raw, s, tmpdir, True)
+    finally:
+        shutil.rmtree(tmpdir, ignore_errors=True)
